@@ -604,8 +604,9 @@ def normaliser_check(family, p0, ests, findings, stats, band=None):
     for x, (c, rel) in ests[:1]:
         if not abs(c - 1.0) <= rel * max(c, 1.0):
             stats.setdefault('notes', []).append(
-                '%s (%d parameters): reported pdf = %.5g x jump law, the same factor from every from-point '
-                '(a constant factor does not change the Hastings ratio)' % (family, len(p0.parameters), c))
+                '%s (%d parameters): reported pdf = %.5g x jump law (a factor that is the same from every '
+                'from-point does not change the Hastings ratio; that it is the same is checked separately)' % (
+                    family, len(p0.parameters), c))
     for (x, (c1, r1)), (y, (c2, r2)) in zip(ests[:-1], ests[1:]):
         stats['normaliser_pairs'] = stats.get('normaliser_pairs', 0) + 1
         if not abs(c1 - c2) <= (r1 + r2) * max(c1, c2):
@@ -1569,7 +1570,7 @@ def plan_units(seed, tier, full=False):
     units = []
     quick = tier == 'quick' and not full
     bigN, smallN = (20000, 2500) if quick else (20000, 20000)
-    nbig, nsmall = (3, 6) if quick else (0, 40)
+    nbig, nsmall = (3, 6) if quick else (0, 30)
     hugeN, nhuge = (0, 0) if quick else (1000000, 2)
     wheres = ['inside', 'lower', 'upper', 'inside']
     for fam in sorted(F.FAMILIES):
